@@ -78,7 +78,15 @@ def run_case(case, ctx):
             pr = case['prior']
             engine, _m0 = estim.estimate(dom, measure.as_tuples(pr['meas']), pr['total'], solver, pr['iters'])
             ctx.tag('engine_history')
-        eng, model = estim.estimate(dom, tuples, case['total'], solver, iters, engine=engine)
+        vkw, vtags, vseen = estim.variant(case['np_seed'], attrs)
+        if engine is not None:
+            vkw.pop('elim', None)
+        for t in vtags:
+            if t != 'opt:elim_order' or engine is None:
+                ctx.tag(t)
+        eng, model = estim.estimate(dom, tuples, case['total'], solver, iters, engine=engine, **vkw)
+        if 'callback' in vkw and iters >= 1:
+            ctx.mon('callback_calls', len(vseen))
         total = float(model.total)
         if fstar is None:
             fstar, gap, fu, _p, adequate = estim.optimum(attrs, shape, plain, total)
